@@ -76,9 +76,20 @@ Section C08.
   Proof. exact step_inv. Qed.
 End C08.
 
-(* insert_wrappers_attach_wires (insert_nested / insert_cfg / insert_conditional / insert_tail_loop): the model
-   insert_wrapped = insert_hugr + one add_link per wire + _update_port_count is tied by correspondence and the
-   wires are checked by the monitor (run/C08Run.v: extra links of insert_spec_b); no theorem is stated. *)
+(* insert_nested / insert_cfg / insert_conditional / insert_tail_loop (model insert_wrapped: insert_hugr under the
+   builder's parent node, one add_link per wire, _update_port_count with the counts of the operation's signature):
+   the call returns normally with the mapping of the plain insertion, adds exactly one link per wire into the image
+   of the root at offsets 0, 1, ..., and leaves operation, parent, ordered children and metadata of every node as
+   the plain insertion made them (only port counts may be re-declared).  Wires are sibling outputs (live nodes of A). *)
+Theorem C08_insert_wrappers_attach_wires : forall {Op Meta : Type} (A B : hugr Op Meta) (p : nid) (ws : list port) ki ko,
+  Inv A -> Inv B -> WF B -> get_node A p <> None ->
+  (forall w, In w ws -> get_node A (fst w) <> None /\ (-1 <= snd w)%Z) ->
+  exists A' A'' m r',
+    insert_hugr A B (Some p) = (A', m, Ok) /\ IsoFrame A B p m A' /\ dget Nat.eqb m (root B) = Some r' /\
+    insert_wrapped A B p ws ki ko = (A'', m, Ok) /\ root A'' = root A /\
+    Permutation (q_links A'') (q_links A' ++ wire_links r' 0 ws) /\
+    forall x, option_map shape4 (get_node A'' x) = option_map shape4 (get_node A' x).
+Proof. intros Op Meta. exact insert_wrappers_attach_wires. Qed.
 
 (* non-vacuity: a source whose child sits below its parent in index order after index reuse (the D20 trigger),
    with a multi-linked port and an order link, is inside the hypotheses, and insert_hugr maps it *)
@@ -106,6 +117,7 @@ Print Assumptions C08_insert_linked_ports_out_frame.
 Print Assumptions C08_insert_linked_ports_in_frame.
 Print Assumptions C08_model_satisfies_the_monitored_spec.
 Print Assumptions C08_insert_refines_the_sequential_spec.
+Print Assumptions C08_insert_wrappers_attach_wires.
 Print Assumptions C08_insert_keeps_wf.
 Print Assumptions C08_sources_satisfy_the_hypotheses.
 Print Assumptions C08_step_inside_guard_returns.
